@@ -400,6 +400,7 @@ func runC17(c *ctx) {
 			ct.rc = o.RetryContainer
 		}
 		var updates []interface{}
+		var evictedBefore []interface{}
 		gen := 0
 		past := map[string][][]*gRetryRoute{}
 		for u := 0; u < nUpd; u++ {
@@ -490,6 +491,19 @@ func runC17(c *ctx) {
 			if uj == nil {
 				uj = []interface{}{}
 			}
+			evs := []string{}
+			if u > 0 && r.chance(18) {
+				// the cleaner evicts an idle route table before this update (and a lookup subscribes the name again): the
+				// table is no longer among the cached ones, so the update that follows removes its policies - unless it
+				// carries the table again
+				tn := tables[r.intn(len(tables))]
+				w.m.VerifEvict(xdsresource.RouteConfigType, tn)
+				w.m.VerifWatch(xdsresource.RouteConfigType, tn, false)
+				w.settle()
+				evs = append(evs, tn)
+				c.count("table-evicted", 1)
+			}
+			evictedBefore = append(evictedBefore, evs)
 			w.push(mkResp(xdsresource.RouteTypeURL, verStr(r, u), fmt.Sprintf("n%d", u+1), anys))
 			updates = append(updates, uj)
 			for _, ct := range cts {
@@ -511,7 +525,7 @@ func runC17(c *ctx) {
 			if ct.registerAt > 0 {
 				c.count("late-registration", 1)
 			}
-			c.emit(obj{"op": "retry", "container": k + 1, "containers": len(cts), "registerAt": ct.registerAt, "updates": updates, "obs": ct.obs})
+			c.emit(obj{"op": "retry", "container": k + 1, "containers": len(cts), "registerAt": ct.registerAt, "updates": updates, "evictedBefore": evictedBefore, "obs": ct.obs})
 		}
 		w.close()
 	}
